@@ -295,6 +295,18 @@ def configs(tier: str):
             for w in ('attr', 'key', 'label', 'slice', 'whole'):
                 for p in range(n):
                     out.append(cfg10(span=span, n=n, op='roundtrip', wpath=w, pos=p, distinct=distinct))
+    # plain-int labels on range / int64-ndarray spans (a proxy label would bypass any `isinstance(label, int)` fast path):
+    # every label from below the first to above the last
+    for span in ('range', 'nd_int'):
+        for n in (1, 3) if tier == 'quick' else (1, 2, 3, 5):
+            labs = list(range(1990 - n - 2, 1990 + n + 3))
+            for a in labs:
+                out.append(cfg10(span=span, n=n, op='get', a=a))
+                out.append(cfg10(span=span, n=n, op='set', a=a))
+            for a in labs[::2] + ['none']:
+                for b in labs[1::2] + ['none']:
+                    out.append(cfg10(span=span, n=n, op='getslice', a=a, b=b, step='sym' if n > 1 else 'none'))
+                    out.append(cfg10(span=span, n=n, op='setslice', a=a, b=b))
     for span in ('list_str', 'nd_str', 'list_mixed'):
         for n in (1, 3) if tier == 'quick' else (1, 2, 3, 4):
             labs = _labels(cfg10(span=span, n=n), SymSrc())
